@@ -438,6 +438,8 @@ def tasks(tier, seed):
     ts = [(verify, (c, m, q, v)) for c, m, q, v in kv.ALL]
     from ..contracts import facade, kvnew
     ts += [(verify, (c, m, q, v)) for c, m, q, v in facade.ALL]
+    from ..contracts import facade2
+    ts += [(verify, (c, m, q, v)) for c, m, q, v in facade2.ALL]
     ts += [(verify, (c, m, q, v)) for c, m, q, v in kvnew.ALL]
     ts.append((task_frames_kv, ()))
     maxlen = 6 if tier == "quick" else 8
@@ -509,7 +511,7 @@ def replay(o):
 
 
 INFO = dict(
-    assumptions=A.S_COMMON + [A.A10], trusted_base=A.TRUSTED, min_obligations=150, level="other",
+    assumptions=A.S_COMMON + [A.A10, A.A12], trusted_base=A.TRUSTED, min_obligations=150, level="other",
     explanation="C03: engine V proves, for vectors of EVERY length: the constructor accepts exactly the well-formed clamped vectors (__is_valid both degree modes, "
                 "__new__), the binary span search, valid / limits / degree / npts, ImmutableKnotVector.__add__/__sub__, and for every KnotVector mutator "
                 "(insert, remove, shift, scale, normalize, +=, -=, *=, |=, &=, internal setter) that a raising request leaves the payload object in place and a "
